@@ -39,13 +39,13 @@ Definition hist : list (@bevent lreq) :=
   [EConsume ([1; 2; 3; 4; 5], false); EConsume ([6], false); EResult 1 false; EResult 2 true; EResult 0 false; EShutdown].
 
 Example ex_hist :
-  let st := fst (brun (lsplit 0 2) lsizeof 2 hist) in
+  let st := fst (brun (lsplit 0 2) lsizeof lsizeof 2 hist) in
   (b_fired st, b_cur st, b_flying st) = ([(1%nat, true); (0%nat, true)], None, []).
 Proof. vm_compute. reflexivity. Qed.
 
 (* the hypotheses of done_exactly_once hold at the end of that history, and both requests are below the count *)
 Example ex_hist_quiescent :
-  let st := fst (brun (lsplit 0 2) lsizeof 2 hist) in
+  let st := fst (brun (lsplit 0 2) lsizeof lsizeof 2 hist) in
   b_cur st = None /\ b_flying st = [] /\
   length (filter (fun e => match e with EConsume _ => true | _ => false end) hist) = 2%nat /\
   fcount 0 (b_fired st) = 1 /\ fcount 1 (b_fired st) = 1.
@@ -53,7 +53,7 @@ Proof. vm_compute. repeat split; reflexivity. Qed.
 
 (* done_only_after_batches is not vacuous: before the last result, request 0 is still referred to *)
 Example ex_hist_refers :
-  let st := fst (brun (lsplit 0 2) lsizeof 2 (firstn 4 hist)) in
+  let st := fst (brun (lsplit 0 2) lsizeof lsizeof 2 (firstn 4 hist)) in
   fcount 0 (b_fired st) = 0 /\ 0 < live 0 (b_refs st).
 Proof. vm_compute. split; reflexivity. Qed.
 
@@ -63,16 +63,17 @@ Example ex_wf_prof : wf_p w_samples Items (rp prof_req2) /\ wf_p w_unit Bytes (r
 Proof. split; repeat constructor; cbn; lia. Qed.
 
 (* ... and for the items sizer it cannot be dropped: a profile WITHOUT samples in front of an oversized one is extracted, the
-   extraction removed size 0, the loop stops and the extracted payload (with that profile) is discarded *)
+   extraction removed size 0, the oversized profile is isolated and the extracted payload (with the sample-less profile)
+   is discarded *)
 Example ex_empty_profile_dropped :
   option_map (map (fun r => map iid (items_of (rp r))))
     (merge_split w_samples Items 3
        (req_of ((-1), [(1, 10, [(1, 10, [(7, 20, 0); (8, 40, 5); (9, 40, 1)])])])) None)
-  = Some [[8; 9]].
+  = Some [[8]; [9]].
 Proof. vm_compute. reflexivity. Qed.
 
-(* witnesses of the residual findings are in Proofs4.v (oversized_remainder_witness, prof_oversized_witness,
-   emptyfrag_witness, drift_witness); the bytes split of the F5 input does split when the
+(* witnesses of the open findings are in Proofs4.v (emptyfrag_witness, drift_witness), with the regressions of the repaired
+   ones (below); the bytes split of the F5 input does split when the
    record fits, and profiles are split by samples: *)
 Example ex_f5_fits : exists out, merge_split w_unit Bytes 100 f5_req None = Some out /\ length out = 2%nat.
 Proof. exact f5_fits. Qed.
@@ -80,12 +81,12 @@ Example ex_prof_split : summary w_samples Items (merge_split w_samples Items 2 p
   = Some [(-1, 2, 1%nat); (-1, 2, 1%nat); (1, 1, 1%nat)].
 Proof. exact prof_split_ok. Qed.
 
-(* C04-FRAGPREFIX (recorded from the implementation): metrics, bytes sizer, max_size 429: the first batch
-   measures 430 bytes (4 points, no empty fragment): the data message of the fragment needs a 2-byte length *)
+(* regression of the former C04-FRAGPREFIX input (repaired by 9e189f99b; it used to give a first batch of 430 bytes):
+   metrics, bytes sizer, max_size 429: every batch is within the limit *)
 Example ex_fragprefix :
   option_map (map (fun r => (mpayload_size Bytes (mrp r), length (mpoints_of (mrp r)))))
     (mmerge_split Bytes 429 (mreq_of (726,[(1,70,[(6,81,[(5,5,35,0,[]);(1,4,54,2,[(1376,55,1);(1377,95,1);(1378,35,1);(1379,35,1);(1380,44,1)])]);(6,81,[(1,3,54,2,[(1381,48,1)])])])])) None)
-  = Some [(430, 4%nat); (401, 2%nat); (217, 0%nat)].
+  = Some [(393, 3%nat); (388, 2%nat); (267, 1%nat)].
 Proof. vm_compute. reflexivity. Qed.
 
 (* the former C04-ITEMLESS-BREAK input is now split: the record-less resource first, then one record per batch *)
@@ -100,7 +101,7 @@ Proof. vm_compute. reflexivity. Qed.
    is below min_size because more than one result came back (the `len(reqList) > 1` disjunct of Consume), the last
    one is parked; nothing is lost and both callbacks fire once all batches return *)
 Example ex_first_result_below_min :
-  let st := fst (brun (lsplit 1 4) lsizeof 4
+  let st := fst (brun (lsplit 1 4) lsizeof lsizeof 4
                    [EConsume ([1], false); EConsume ([2; 3; 4; 5; 6; 7], false); EShutdown;
                     EResult 0 false; EResult 1 false; EResult 2 false]) in
   (map (fun x => fst (snd (fst x))) (b_flying st), b_fired st, b_cur st)
@@ -119,7 +120,7 @@ Proof. vm_compute. reflexivity. Qed.
 
 (* the error specification on the history of ex_hist: batch 2 (ids [5;6], attached to requests 0 and 1) failed *)
 Example ex_spec_err :
-  let E := snd (erun (lsplit 0 2) lsizeof 2 hist) in (E 0%nat, E 1%nat, E 2%nat) = (true, true, false).
+  let E := snd (erun (lsplit 0 2) lsizeof lsizeof 2 hist) in (E 0%nat, E 1%nat, E 2%nat) = (true, true, false).
 Proof. vm_compute. reflexivity. Qed.
 
 (* round 5: batcher_conserves / done_only_after_batches_items are not vacuous: the foreign-error history is a
@@ -127,14 +128,15 @@ Proof. vm_compute. reflexivity. Qed.
 From Verif Require Import C04.Proofs8 C04.Checker.
 Example ex_wf_events : wf_events w_unit Bytes fe_hist.
 Proof.
-  intros r H. cbn in H. destruct H as [H|[H|H]].
+  assert (Hu : forall p, pos_items w_unit p) by (intros p i _; unfold w_unit; lia).
+  intros r H. split; [|apply Hu]. cbn in H. destruct H as [H|[H|H]].
   - injection H as <-. repeat constructor; cbn; lia.
   - injection H as <-. repeat constructor; cbn; lia.
   - repeat (destruct H as [H|H]; [discriminate H|]). destruct H.
 Qed.
 Example ex_crun :
-  let '(st, n, rs, F) := crun w_unit Bytes 120 120 fe_hist in
-  (cur_items st, fly_items st, map iid F, length rs) = ([], [], [1; 2; 3; 4], 2%nat).
+  let '(st, n, rs, ok, F) := crun w_unit Bytes 120 120 fe_hist in
+  (cur_items st, fly_items st, map iid F, map iid ok, length rs) = ([], [], [1; 2; 3; 4], [1; 2; 3; 4], 2%nat).
 Proof. vm_compute. reflexivity. Qed.
 (* the clause checker on a recorded case: a logs split at max 2 items *)
 Example ex_checker :
@@ -143,3 +145,70 @@ Example ex_checker :
   clause_code (CL3 0 0 2 ((-1), [(1, 10, [(1, 10, [(1, 5, 1); (2, 5, 1); (3, 5, 1)])])]) None
                    (Some [((-1), 2, [(1, [(1, [1; 2])])])])) = 2.
 Proof. vm_compute. split; reflexivity. Qed.
+
+(* ---- after the repairs 9e189f99b / ffc8e5fcc / 6f74b829b: regressions of the former failing inputs ---------- *)
+(* former C04-OVERSIZED-REMAINDER inputs: the unit that does not fit now leaves alone (it gave one request of 101 bytes
+   holding both records; one request of 6 samples holding both profiles) *)
+Example ex_oversized_regression :
+  summary w_unit Bytes (merge_split w_unit Bytes 30 f5_req None) = Some [(-1, 96, 1%nat); (29, 29, 1%nat)] /\
+  summary w_samples Items (merge_split w_samples Items 3 prof_req None) = Some [(-1, 5, 1%nat); (1, 1, 1%nat)].
+Proof. split; [exact oversized_remainder_witness|exact prof_oversized_witness]. Qed.
+
+(* former C04-DONE-FOREIGN-ERROR histories: only the export of batch 0 fails; request 2 (slack requests) / request 1
+   (payload requests), none of whose items is in batch 0, now reports success (it reported an error) *)
+Example ex_foreign_regression :
+  model_bat 2 3 3 foreign_evs = ([[1;2];[3;4;5];[6;7]], [(0,1);(1,1);(2,0)]) /\
+  b_fired (fst (brun (msplitC w_unit Bytes 120) (sizeofC w_unit Bytes) (icountC w_unit) 120 fe_hist)) = [(0%nat, true); (1%nat, false)].
+Proof. split; [exact foreign_error_witness|exact (proj2 foreign_error_payload_witness)]. Qed.
+
+(* batch_size_bound_one_item: the item-less oversized remainder exists (a record-less resource of 300 header bytes,
+   max_size 100): last request, 315 bytes, no record; and its hypotheses hold for that input *)
+Definition itemless_big : req := req_of ((-1), [(1, 10, [(1, 10, [(1, 20, 1)])]); (2, 300, [(1, 10, [])])]).
+Example ex_itemless_oversized :
+  summary w_unit Bytes (merge_split w_unit Bytes 100 itemless_big None) = Some [(-1, 46, 1%nat); (315, 315, 0%nat)] /\
+  wf_p w_unit Bytes (rp itemless_big) /\ memo_ok w_unit Bytes itemless_big.
+Proof. split; [vm_compute; reflexivity|]. split; [repeat constructor; cbn; lia|left; reflexivity]. Qed.
+
+(* attach_rule_items on the payload history: hypotheses satisfiable (fe_a parked, fe_b new), both cases of [attach] occur
+   in the slack history above (request 2 not attached to [1;2]) and here (attached: the first result takes record 2) *)
+Example ex_attach_rule :
+  wf_p w_unit Bytes (rp fe_a) /\ wf_p w_unit Bytes (rp fe_b) /\ pos_items w_unit (rp fe_b) /\ psum w_unit Bytes (rp fe_a) <= 200 /\
+  option_map (map (fun r => map iid (ritems r))) (merge_split w_unit Bytes 200 fe_a (Some fe_b)) = Some [[1; 2]; [3; 4]].
+Proof.
+  split; [repeat constructor; cbn; lia|]. split; [repeat constructor; cbn; lia|]. split; [intros i _; unfold w_unit; lia|].
+  split; vm_compute; [discriminate|reflexivity].
+Qed.
+
+(* ---- the link theorems are not vacuous ---------------------------------------------------------------------------- *)
+From Verif Require Import C04.Link.
+(* guard_l3 holds for a profiles request (samples 2, 2, 1; items sizer, max 2), for the F5 input (bytes, max 30: a
+   record that does not fit alone) and for a merge of two logs requests with a warm exact memo; and the conclusion
+   in numbers *)
+Definition prof_t : treq := ((-1), [(1, 10, [(1, 10, [(1, 40, 2); (2, 40, 2); (3, 40, 1)])])]).
+Definition f5_t : treq := ((-1), [(1, 10, [(1, 10, [(1, 70, 1); (2, 3, 1)])])]).
+Definition warm_t : treq := (2, [(2, 12, [(1, 10, [(4, 5, 1); (5, 5, 1)])])]).
+Example ex_guard_l3 :
+  guard_l3 2 0 2 prof_t None = true /\ guard_l3 0 1 30 f5_t None = true /\ guard_l3 0 0 3 f5_t (Some warm_t) = true /\
+  clause_code (CL3 2 0 2 prof_t None (model_l3 2 0 2 prof_t None)) = 0 /\
+  model_l3 0 1 30 f5_t None = Some [((-1), 96, [(1, [(1, [1])])]); (29, 29, [(1, [(1, [2])])])].
+Proof. vm_compute. repeat split; reflexivity. Qed.
+(* the guard is needed: a memo that overstates the size makes the model's cached-size clause fail *)
+Example ex_guard_needed :
+  guard_l3 0 0 3 (7, snd f5_t) None = false /\ clause_code (CL3 0 0 3 (7, snd f5_t) None (model_l3 0 0 3 (7, snd f5_t) None)) <> 0.
+Proof. vm_compute. split; [reflexivity|discriminate]. Qed.
+
+(* model_passes_checker_batcher_done: a history over ids requests that ends quiescent (request 0 spread over three
+   batches, one export failing), and the whole checker on the model's own observation *)
+Definition hist_t : list tbev :=
+  [(0, [1; 2; 3; 4; 5], 0); (0, [6], 0); (2, [1], 0); (2, [2], 1); (2, [0], 0); (3, [], 0); (2, [3], 0)].
+Example ex_bat_done :
+  let st := fst (brun (lsplit 0 2) lsizeof lsizeof 2 (map bev_of hist_t)) in
+  b_cur st = None /\ b_flying st = [] /\ length (ev_reqs hist_t) = 2%nat /\
+  (let '(bs, fired) := model_bat 0 2 2 hist_t in clause_code (CBat 2 2 0 hist_t bs fired)) = 0.
+Proof. vm_compute. repeat split; reflexivity. Qed.
+
+(* split_terminates_metrics: its hypotheses hold for the recorded CACHEDRIFT input (exact memo 783) and the EMPTYFRAG input
+   (unknown memo) *)
+From Verif Require Import C04.Proofs10.
+Example ex_memo_ge : memo_ge drift_req /\ memo_ge emptyfrag_req /\ wf_mpayload Bytes (mrp drift_req).
+Proof. split; [right; vm_compute; discriminate|]. split; [left; reflexivity|]. repeat constructor; cbn; lia. Qed.
